@@ -126,3 +126,13 @@ CLAIMS['C10'] = dict(
          'the server answers uptodate only when asked, on a hit and for an equal generation, no_data only on a miss, and replies with the entry\'s generation; mem_cache stamps each store with the supplied or a fresh generation and increments the counter nowhere else; '
          'per message the receiver reads only header fields the sender writes, sizes are payload sizes, a data reply always replaces value, deadline and generation; the server slices its input only past the length equation / the 32-byte sid checks.',
     note='Observed and not claimed (DESIGN.md): trigger set returned after an L1 refresh is the union of old and new triggers; trigger names containing NUL cannot cross the NUL-separated wire format. Not decided: interleaving coherence, strlen walks over the reply on the client (trusted server).')
+
+CLAIMS['C14'] = dict(
+    category='proof',
+    engine='cppcms-facts + vlib/absint (abstract interpreter) + vlib rules',
+    technique='static analysis: abstract interpretation of the decoder/validator sources over input boxes (value sets + strided intervals, box refinement), compared with the RFC 3629 table; table and domination rules for the registry and the filters',
+    text='Exhaustive by construction over all byte strings of length 0-4 (2^32 sequences covered by ~9000 boxes): cppcms::utf8::next (html on/off) and booster utf_traits<char>::decode return, on every box, exactly the RFC 3629 verdict '
+         '(shortest form, no surrogates, <= U+10FFFF, truncation -> illegal/incomplete; html mode additionally rejects C0 except TAB/LF/CR, DEL and U+0080-U+009F), the same code-point set and the same number of consumed bytes. '
+         'Every single-byte validator accepts 0x20-0x7E, rejects C0 controls (except TAB/LF/CR) and DEL, ISO-8859 validators reject 0x80-0x9F, ASCII rejects >= 0x80, one count per byte (thorough: every byte pair is the conjunction). '
+         'Every registered encoding name maps to the validator of that code page. The filters copy input bytes only under the html-safe decoder / per-byte validator success for exactly those bytes and return valid input untouched.',
+    note='Trusted: the RFC table in rules/C14.py and the abstract domain of vlib/absint.py (a code-point set is compared by endpoints and cardinality on each box). Not decided: iconv/ICU fall-back path (not compiled in), multi-byte non-UTF-8 code pages, the loop of utf8::validate beyond "one count per decoded sequence".')
